@@ -71,6 +71,7 @@ def run_case(task):
         ex.domain_checks = ob.get('domain_checks', False)
         ex.record_reads = ob.get('record_reads', False)
         if 'slicing' in ob: ex.slicing = ob['slicing']
+        if 'libm_axioms' in ob: ex.libm_axioms = ob['libm_axioms']
         if ob.get('setup'): ob['setup'](ex)
         cap = ob.get('time_cap', 280 if tier == 'quick' else 2400)
         try:
